@@ -120,8 +120,31 @@ def scaled_expectation(case, exp):
     return Fraction(exp['n'], exp['d']) * K_SCALE ** deg
 
 
+def twin_eval(case, origin=(3, 2)):
+    """the SAME formula text in A1 of two sheets: Sheet1 holds the case's cells, the other sheet the same cells with 1000
+    added to every number; the other sheet's formula is evaluated first, by the same evaluator"""
+    cells, text = build_formula(case, 'absent', origin)
+    both = dict(cells)
+    for a, spec in cells.items():
+        sh, ref = a.split('!')
+        if spec[0] == 'value' and isinstance(spec[1], (int, float)) and not isinstance(spec[1], bool):
+            spec = ('value', spec[1] + 1000)
+        both[f'{OTHER}!{ref}'] = spec
+    try:
+        model, ev = xl.build_model(both, {RESULT: text, f'{OTHER}!A1': text})
+        ev.evaluate(f'{OTHER}!A1')
+        res = ev.evaluate(RESULT)
+        return xl.to_abs(res), xl.to_abs(ev.get_cell_value(RESULT)), text
+    except BaseException as e:      # noqa
+        if isinstance(e, (KeyboardInterrupt, SystemExit)):
+            raise
+        return xl.to_abs(e), None, text
+
+
 def observe(case, path):
     """-> (observed, stored or None, formula text or None)"""
+    if path == 'formula-twin':
+        return twin_eval(case, case.get('origin') or (3, 2))
     if path.endswith('-scaled'):
         return observe(scaled(case), path[:-7])
     if path == 'direct':
@@ -178,6 +201,8 @@ def paths_for(case):
         p.append('formula-none')
     if sum(1 for a in case['args'] if a['t'] == 'arr') >= 2 and _h(case) % 2 == 1:
         p.append('formula-2sheets')       # a range on another sheet, then unqualified ranges
+    if any(a['t'] == 'arr' for a in case['args']) and _h(case) % 8 == 3:
+        p.append('formula-twin')          # the same formula text on two sheets holding different data
     return p
 
 
